@@ -10,7 +10,7 @@ from vlib import gen, ref, obs
 from vlib import expr as E
 from vlib.build import build, vec_expr
 from vlib.core import Fail, HarnessInconclusive
-from vlib.nlp import NLP, close, time_like_vars, DMa
+from vlib.nlp import NLP, close, time_like_vars, random_points, DMa
 
 ID = "C08"
 LEVEL = "exploration"
@@ -26,8 +26,23 @@ ASSUMPTIONS = ["feasible points are found by Newton on the NLP's own equality ro
 
 
 @st.composite
+def dae_strategy(draw):
+    """DirectCollocation of a DAE: refined samples and the sampler of expressions with algebraic values."""
+    tk = {"max_params": 1, "max_vars": 1, "shapes": [(1, 1), (1, 1), (2, 1)], "grids": ("", "control")}
+    sp = draw(gen.base_ocp(methods=("DC",), allow_alg=True, alg_odds=(1, 1), horizons=("num", "free"), table_kw=tk,
+                           grid_kw={"classes": ("uniform", "geometric", "function", "free"), "localize": False}))
+    leaves = gen.leaves_of(sp["states"]) + gen.leaves_of(sp["controls"]) + gen.leaves_of(sp["algebraics"])
+    z = gen.leaves_of(sp["algebraics"])[0]
+    e = [draw(st.sampled_from(["+", "*"])), draw(gen.free_expr(leaves, depth=2)), z]
+    fr = sorted(set([0.0, 1.0] + [draw(st.sampled_from([0.1, 0.25, 0.37, 0.5, 0.62, 0.75, 0.9, 0.999])) for _ in range(4)]))
+    return {"spec": sp, "kind": "dae", "refine": draw(st.integers(1, 6)), "fractions": fr, "expr": e, "rng": draw(st.integers(0, 2**31 - 1))}
+
+
+@st.composite
 def strategy_(draw):
-    kind = gen.weighted(draw, [("generic", 4), ("polyode", 2)])
+    kind = gen.weighted(draw, [("generic", 4), ("polyode", 2), ("dae", 1)])
+    if kind == "dae":
+        return draw(dae_strategy())
     tk = {"max_params": 1, "max_vars": 1, "shapes": [(1, 1), (1, 1), (2, 1)], "grids": ("", "control")}
     sp = draw(gen.base_ocp(allow_alg=False, horizons=("num", "free"), table_kw=tk, grid_kw={"classes": ("uniform", "geometric", "function", "free", "density"), "localize": False}))
     m = sp["method"]
@@ -119,7 +134,94 @@ def feasible_point(nlp, B, probes, mcls, rng):
     raise HarnessInconclusive("Newton did not converge")
 
 
+def check_dae(case, ctx):
+    """Interpolation identities only (no feasibility needed): within a step the state is the degree-d polynomial through the step's start
+    value and its d collocation values, an algebraic value the degree-(d-1) polynomial through its d collocation values."""
+    sp = copy.deepcopy(case["spec"])
+    m = sp["method"]
+    N, M, r, d = m["N"], m["M"], case["refine"], m["degree"]
+    rng = np.random.default_rng(case["rng"])
+    feats = {"method": "DC", "scheme": "%s-%d" % (m["scheme"], d), "tgrid": m["grid"]["cls"], "kind": "dae", "M>1": M > 1}
+    sp["objective"] = gen.activation_objective(sp)
+    B = build(sp)
+    ocp = B.ocp
+    nlp = NLP(ocp)
+    xall = ca.vertcat(*[ca.vec(B.syms[dd["name"]]) for dd in sp["states"]])
+    zall = ca.vertcat(*[ca.vec(B.syms[dd["name"]]) for dd in sp["algebraics"]])
+    e_mx = E.to_ca(case["expr"], B, ocp)
+    probes = obs.stage_probes(B, "main", dc=False, intg=True)
+    t_r, xz_r = ocp.sample(ca.vertcat(xall, zall), grid="integrator", refine=r)
+    probes.update({"t_r": t_r, "xz_r": xz_r, "e_r": ocp.sample(e_mx, grid="integrator", refine=r)[1], "x_i": ocp.sample(xall, grid="integrator")[1],
+                   "x_roots": ocp.sample(xall, grid="integrator_roots")[1], "z_roots": ocp.sample(zall, grid="integrator_roots")[1], "gist": ocp.gist})
+    nlp.add_all(probes)
+    tl = time_like_vars(nlp, [probes["main|tk"], probes["main|T"]])
+    res = nlp.eval(random_points(nlp, rng, 1, time_like=tl)[0])
+    tk, ti = res["main|tk"].reshape(-1), res["main|ti"].reshape(-1)
+    T, t0 = float(res["main|T"].reshape(-1)[0]), float(res["main|t0"].reshape(-1)[0])
+    nx = res["x_i"].shape[0]
+    col = ref.Colloc(d, m["scheme"])
+    zb = ref.lagrange_basis(col.tau)
+    R = ref.StageRef(sp)
+    data = ref.override_params(obs.unpack(res, "main"), sp, N)
+    tr = ref.Traj(R, data, M)
+
+    def at(t):
+        step = max(min(int(np.searchsorted(ti, t, side="right") - 1), N * M - 1), 0)
+        s_ = (t - ti[step]) / (ti[step + 1] - ti[step])
+        Xc = np.column_stack([res["x_i"][:, step], res["x_roots"][:, step * d:(step + 1) * d]])
+        Zc = res["z_roots"][:, step * d:(step + 1) * d]
+        return col.interp(Xc, s_), sum(Zc[:, j] * zb[j](s_) for j in range(d)), step
+
+    def expr_at(t, xv, zv, step):
+        k = min(step // M, N - 1)
+        vals = dict(tr.base_vals(k, node=k))
+        R.split(R.states + R.qstates, xv, vals)
+        for dd in sp["algebraics"]:
+            vals[dd["name"]] = zv
+        return E.ev(case["expr"], E.Env(vals, t=t, T=T, t0=t0))
+    fails = []
+    tr_ = res["t_r"].reshape(-1)
+    for j in range(len(tr_) - 1):            # the final point closes the last step
+        xv, zv, step = at(tr_[j])
+        if not close(res["xz_r"][:nx, j], xv, 1e-8, 1e-9):
+            fails.append(Fail("dae-refined-state", feats, {"point": j, "sampled": res["xz_r"][:nx, j], "interpolant": xv}))
+            break
+        if not close(res["xz_r"][nx:, j], zv, 1e-8, 1e-9):
+            fails.append(Fail("dae-refined-algebraic", feats, {"point": j, "sampled": res["xz_r"][nx:, j], "interpolant": zv}))
+            break
+        we = expr_at(tr_[j], xv, zv, step)
+        if np.isfinite(we) and not close(float(res["e_r"][0, j]), we, 1e-7, 1e-8):
+            fails.append(Fail("dae-refined-expression", feats, {"point": j, "sampled": res["e_r"][:, j], "reference": we}))
+            break
+    if fails:
+        return fails
+    try:
+        smp = ocp.sampler([xall, zall, e_mx])
+    except Exception as ex:
+        return [Fail("sampler-exception", feats, {"message": str(ex)[:150]})]
+    gist = res["gist"].reshape(-1)
+    qt = [tk[0] + f * (tk[-1] - tk[0]) for f in case["fractions"][:-1]] + [float(ti[len(ti) // 2])]
+    for t in qt:
+        out = smp(gist, float(t))
+        xv, zv, step = at(t)
+        if not close(np.array(out[0]).reshape(-1), xv, 1e-7, 1e-8):
+            fails.append(Fail("sampler-vs-polynomial", feats, {"t": t, "sampler": np.array(out[0]).reshape(-1), "polynomial": xv}))
+            break
+        if not close(np.array(out[1]).reshape(-1), zv, 1e-7, 1e-8):
+            fails.append(Fail("dae-sampler-algebraic", feats, {"t": t, "fraction": (t - tk[0]) / (tk[-1] - tk[0]), "step": step, "sampler": np.array(out[1]).reshape(-1), "interpolant": zv}))
+            break
+        we = expr_at(t, xv, zv, step)
+        if np.isfinite(we) and not close(float(np.array(out[2]).reshape(-1)[0]), we, 1e-6, 1e-7):
+            fails.append(Fail("dae-sampler-expression", feats, {"t": t, "sampler": float(np.array(out[2]).reshape(-1)[0]), "reference": we}))
+            break
+    ctx.count("dae_cases")
+    ctx.count("sampler_queries", len(qt))
+    return fails
+
+
 def check(case, ctx):
+    if case["kind"] == "dae":
+        return check_dae(case, ctx)
     sp = copy.deepcopy(case["spec"])
     m = sp["method"]
     N, M, r = m["N"], m["M"], case["refine"]
